@@ -19,12 +19,16 @@ structure DSt where
   st : St := {}
   arr : List (Nat × Bytes) := []
 
+/-- `GenericDoIPHeaderNACKCodes(code)` with its `_missing_` (the queue holds the enum member) -/
+def hdrNackName (c : UInt8) : UInt8 := if c ≤ 4 then c else 0xFF
+
+/-- frames as the queue of the implementation shows them (negative-ack / header-nack codes are enum members) -/
 def showFrame : Frame → String
-  | .hdrNack c => s!"hnack:{c.toNat}"
+  | .hdrNack c => s!"hnack:{(hdrNackName c).toNat}"
   | .rar s t c => s!"rar:{s}:{t}:{c.toNat}"
   | .diag s t d => s!"diag:{s}:{t}:{hexOrDash d}"
   | .ackPos s t p => s!"ackp:{s}:{t}:{hexOrDash p}"
-  | .ackNeg s t c p => s!"ackn:{s}:{t}:{c.toNat}:{hexOrDash p}"
+  | .ackNeg s t c p => s!"ackn:{s}:{t}:{(nackName c).toNat}:{hexOrDash p}"
 
 def showItem : Item → String
   | .fatal => "fatal"
